@@ -196,8 +196,13 @@ class BaseLoader(ABC):
         # resource is not accessible.
         url = str(url)
         if url.startswith("package:"):
-            _, package, filename = url.split(":", 2)
-            file = openPackageResource(package, filename)
+            try:
+                _, package, filename = url.split(":", 2)
+                file = openPackageResource(package, filename)
+            except (ValueError, ImportError, AttributeError) as e:
+                # not of the form package:<name>:<file>, or <name> is
+                # not an importable package
+                self._raise_open_error(url, str(e))
         else:
             try:
                 file = urllib.request.urlopen(url)
